@@ -18,9 +18,17 @@ class InjectedModelFault(Exception):
     pass
 
 
-def reset(logging=False, fault_at=None, script=None):
-    global CALLS, LOGGING, FAULT_AT, N_CALLS, SCRIPT
+class InjectedModelInterrupt(KeyboardInterrupt):
+    """A BaseException that is not an Exception (what Ctrl-C during a simulation raises)."""
+
+
+FAULT_INTERRUPT = False
+
+
+def reset(logging=False, fault_at=None, script=None, interrupt=False):
+    global CALLS, LOGGING, FAULT_AT, N_CALLS, SCRIPT, FAULT_INTERRUPT
     CALLS, LOGGING, FAULT_AT, N_CALLS = [], logging, fault_at, 0
+    FAULT_INTERRUPT = interrupt
     SCRIPT = list(script) if script is not None else []
 
 
@@ -29,6 +37,8 @@ def _enter(theta, N, seed):
     k = N_CALLS
     N_CALLS += 1
     if FAULT_AT is not None and k == FAULT_AT:
+        if FAULT_INTERRUPT:
+            raise InjectedModelInterrupt(f"model call {k}")
         raise InjectedModelFault(f"model call {k}")
     return k
 
